@@ -5,3 +5,9 @@ import Spade.Properties.C14
 #print axioms Spade.C14_hullIter_spec
 #print axioms Spade.orbit_nodup
 #print axioms Spade.nodup_covers
+#print axioms Spade.C14_code_iterator_is_hullIter
+#print axioms Spade.C14_code_double_ended
+#print axioms Spade.C14_code_forward
+#print axioms Spade.C14_code_backward
+#print axioms Spade.C14_code_empty
+#print axioms Spade.C14_code_out_edges_links
